@@ -244,7 +244,9 @@ def handle (toks : List String) : String :=
   | some line => line
   | none =>
   match toks with
-  | "csr" :: rest =>
+  -- `csc`: the same raw arrays under a view whose storage flag is CSC. The code (and the
+  -- model `Csr`) never look at the flag: vertex = outer dimension, neighbours = outer slice.
+  | "csr" :: rest | "csc" :: rest =>
     match (do
       let (indptr, rest) ← takeVec parseNat? rest
       let (indices, rest) ← takeVec parseNat? rest
